@@ -92,7 +92,8 @@ class Recorder:
 
         def wrapped(*a, **kw):
             res = self.orig(*a, **kw)
-            self.calls.append({'x': np.array(res.x, dtype=float), 'bounds': kw.get('bounds')})
+            if not mm.IN_WARMUP[0]:
+                self.calls.append({'x': np.array(res.x, dtype=float), 'bounds': kw.get('bounds')})
             return res
         cb.least_squares = wrapped
         return self
